@@ -58,6 +58,11 @@ Inductive res (A : Type) := Ok (a : A) | Err (e : err).
 Arguments Ok {A}.
 Arguments Err {A}.
 
+(* error returned by brontide.Conn.Write: none, an error of the Machine
+   (WriteMessage), the error of the underlying net.Conn (a timeout), or the
+   model's loop fuel ran out (proved impossible: C11_conn_stream_roundtrip) *)
+Inductive cerr := CNone | CMach (e : err) | CWriter | CFuel.
+
 Section Noise.
   Variables (K W SK PK : Type).
   Variable wb : N -> W.
@@ -408,6 +413,106 @@ Section Noise.
     match read_header c stream with
     | (Err e, c', rest) => (Err e, c', rest)
     | (Ok l, c', rest) => read_body c' rest l
+    end.
+
+  (* ---------------- brontide.Conn (conn.go) ---------------- *)
+  (* The net.Conn under a Conn is described, for writing, by the list of its
+     answers to successive Write calls (missing answers: takes everything),
+     and for reading by the bytes it will deliver before EOF. *)
+  Definition w_all : wresp := (4294967296, false).
+
+  (* c.noise.Flush(c.conn): the header Write (if a header is pending) consumes
+     the first answer, the body Write (if made) the next one *)
+  Definition flush_l (s : sender) (rs : list wresp) : flush_out * list wresp :=
+    let rh := nth 0 rs w_all in
+    let rb := match sn_hdr s with [] => nth 0 rs w_all | _ => nth 1 rs w_all end in
+    let fo := flush s rh rb in
+    (fo, skipN (fo_calls fo) rs).
+
+  Record cw_out := mkCW {
+    cw_snd : sender;
+    cw_written : list W;        (* bytes the net.Conn took during this call *)
+    cw_n : N;                   (* returned count *)
+    cw_err : cerr;              (* returned error *)
+    cw_msgs : list (list N);    (* ghost: chunks accepted by WriteMessage *)
+    cw_calls : N;               (* net.Conn Write calls made *)
+    cw_rest : list wresp        (* answers not consumed *)
+  }.
+
+  (* the chunking loop of Conn.Write: written = bytesWritten, chunk = chunkSize *)
+  Fixpoint conn_write_loop (fuel : nat) (s : sender) (b : list N) (written chunk : N)
+           (rs : list wresp) (out : list W) (msgs : list (list N)) (calls : N) : cw_out :=
+    match fuel with
+    | O => mkCW s out written CFuel msgs calls rs
+    | S f =>
+      if N.ltb written (len b) then
+        let chunk' := if N.ltb (len b) (written + chunk) then len b - written else chunk in
+        let c := firstN chunk' (skipN written b) in
+        match write_message s c with
+        | Err e => mkCW s out written (CMach e) msgs calls rs
+        | Ok s1 =>
+          let '(fo, rs') := flush_l s1 rs in
+          let written' := written + fo_n fo in
+          let out' := out ++ fo_written fo in
+          if fo_err fo
+          then mkCW (fo_sender fo) out' written' CWriter (msgs ++ [c]) (calls + fo_calls fo) rs'
+          else conn_write_loop f (fo_sender fo) b written' chunk' rs' out' (msgs ++ [c])
+                               (calls + fo_calls fo)
+        end
+      else mkCW s out written CNone msgs calls rs
+    end.
+
+  (* Conn.Write(b) *)
+  Definition conn_write (s : sender) (b : list N) (rs : list wresp) : cw_out :=
+    if N.leb (len b) max_uint16 then
+      match write_message s b with
+      | Err e => mkCW s [] 0 (CMach e) [] 0 rs
+      | Ok s1 =>
+        let '(fo, rs') := flush_l s1 rs in
+        mkCW (fo_sender fo) (fo_written fo) (fo_n fo) (if fo_err fo then CWriter else CNone)
+             [b] (fo_calls fo) rs'
+      end
+    else conn_write_loop (S (length b)) s b 0 max_uint16 rs [] [] 0.
+
+  (* bytes.Buffer.Read(p) with len(p) = k on the read buffer: an empty buffer
+     gives io.EOF unless k = 0 *)
+  Definition buf_read (buf : list N) (k : N) : res (list N) * list N :=
+    match buf with
+    | [] => if N.eqb k 0 then (Ok [], []) else (Err EEof, [])
+    | _ => (Ok (firstN k buf), skipN k buf)
+    end.
+
+  (* the reading half of a Conn: recvCipher, readBuf, what the net.Conn holds *)
+  Record creader := mkCR { cr_cs : cstate; cr_buf : list N; cr_stream : list W }.
+
+  (* Conn.Read(b) with len(b) = k *)
+  Definition conn_read (r : creader) (k : N) : res (list N) * creader :=
+    match cr_buf r with
+    | [] =>
+      match read_message (cr_cs r) (cr_stream r) with
+      | (Err e, c', rest) => (Err e, mkCR c' [] rest)
+      | (Ok p, c', rest) => let '(o, buf') := buf_read p k in (o, mkCR c' buf' rest)
+      end
+    | buf => let '(o, buf') := buf_read buf k in (o, mkCR (cr_cs r) buf' (cr_stream r))
+    end.
+
+  (* ReadNextMessage / ReadNextHeader / ReadNextBody go straight to the
+     Machine; readBuf is not consulted *)
+  Definition conn_read_next_message (r : creader) : res (list N) * creader :=
+    let '(o, c', rest) := read_message (cr_cs r) (cr_stream r) in (o, mkCR c' (cr_buf r) rest).
+  Definition conn_read_next_header (r : creader) : res N * creader :=
+    let '(o, c', rest) := read_header (cr_cs r) (cr_stream r) in (o, mkCR c' (cr_buf r) rest).
+  Definition conn_read_next_body (r : creader) (pkt_len : N) : res (list N) * creader :=
+    let '(o, c', rest) := read_body (cr_cs r) (cr_stream r) pkt_len in (o, mkCR c' (cr_buf r) rest).
+
+  (* successive Conn.Read calls with buffer sizes ks *)
+  Fixpoint conn_reads (ks : list N) (r : creader) : list (res (list N)) * creader :=
+    match ks with
+    | [] => ([], r)
+    | k :: ks' =>
+      let '(o, r') := conn_read r k in
+      let '(os, r'') := conn_reads ks' r' in
+      (o :: os, r'')
     end.
 
   (* ---------------- specification-side definitions ---------------- *)
